@@ -27,6 +27,7 @@ import (
 	"fmt"
 	"os"
 	"reflect"
+	"runtime/debug"
 	"sort"
 	"strings"
 	"testing"
@@ -163,6 +164,7 @@ func TestVerifC25(t *testing.T) {
 	c.Assume("the hook context is nil: Run only stores it in the command structs, nothing reads it before Execute")
 
 	os.Unsetenv("GO_FLAGS_COMPLETION") // go-flags would os.Exit(0) in completion mode
+	defer debug.SetGCPercent(debug.SetGCPercent(400)) // Run rebuilds its parser per call: allocation-bound
 
 	sf, err := c25Discover()
 	if err != nil {
@@ -244,6 +246,7 @@ func TestVerifC25(t *testing.T) {
 	executedByRoot := map[string]bool{}
 	executedByNonRoot := map[string]bool{}
 	families := map[string]int{}
+	sampled := map[string]int{}
 
 	judge := func(idx int, k *c25Case, uid uint32, o c25Outcome) {
 		c.Eval()
@@ -377,6 +380,7 @@ func TestVerifC25(t *testing.T) {
 		feat(k)
 		ro := c25Run(k.Argv, 0)
 		judge(idx, k, 0, ro)
+		var lastNR c25Outcome
 		for j := 0; j < nNonRoot; j++ {
 			uid := c25NonRootUids[(idx+j*3)%len(c25NonRootUids)]
 			if r != nil && r.Intn(4) == 0 {
@@ -384,6 +388,7 @@ func TestVerifC25(t *testing.T) {
 			}
 			o := c25Run(k.Argv, uid)
 			judge(idx, k, uid, o)
+			lastNR = o
 			// monitor sanity, not a clause: for an allowed first argument the gate is
 			// transparent, root and non-root must see the same outcome
 			if len(k.Argv) > 0 && c25Allowed[k.Argv[0]] {
@@ -393,8 +398,10 @@ func TestVerifC25(t *testing.T) {
 				}
 			}
 		}
-		if idx < 4 || (k.Family == "wellformed" && families["wellformed"] <= 2) {
-			c.Sample(map[string]interface{}{"case_index": idx, "family": k.Family, "argv": k.Argv, "root": ro.ErrClass + fmt.Sprint(evNames(ro)), "wellformed_for": wfName(k)})
+		if sampled[k.Family] < 1 && (k.Family == "help-as-option-value" || k.Family == "wellformed" || k.Family == "mutated" || k.Family == "ddash-inserted") && len(k.Argv) >= 4 {
+			sampled[k.Family]++
+			c.Sample(map[string]interface{}{"case_index": idx, "family": k.Family, "argv": k.Argv, "as_root": ro.ErrClass + fmt.Sprint(evNames(ro)),
+				"as_last_nonroot_uid": lastNR.ErrClass + fmt.Sprint(evNames(lastNR)), "wellformed_for": wfName(k)})
 		}
 	}
 
